@@ -57,8 +57,11 @@ def model_values(model, summ):
         if summ.kinds[i] == "Str":
             vals.append(0x61)
             continue
+        if summ.kinds[i] == "Nil":
+            vals.append(0)
+            continue
         v = model.eval(inp.e, model_completion=True)
-        vals.append(K.value_bits(summ.kinds[i], v))
+        vals.append(K.value_bits(K.base_kind(summ.kinds[i]), v))
     return vals
 
 
